@@ -218,4 +218,52 @@ def sf_rx_end(ev, v, buf):
     return VInt(T.rx_end(_rx(ev, v), buf.z))
 
 
+def sf_class_of(ev, obj):
+    return VClassSym(ev.eng.class_of(obj.z), obj.cls)
+
+
+def sf_class_name(ev, c):
+    return VStr(z3.Function('class_name', T.I, T.S)(c.z))
+
+
+def sf_ft_len(ev, c):
+    return VInt(z3.Function('ft_len', T.I, T.I)(c.z))
+
+
+def sf_ft_name(ev, c, i):
+    return VStr(z3.Function('ft_name', T.I, T.I, T.S)(c.z, ev.eng.as_int(i)[0]))
+
+
+def sf_ft_field(ev, c, i):
+    return VRef(z3.Function('ft_field', T.I, T.I, T.I)(c.z, ev.eng.as_int(i)[0]), 'Field')
+
+
+def sf_istuple(ev, v, n):
+    from .values import tuple_parts
+    nn = z3.simplify(n.z).as_long()
+    return VBool(tuple_parts(to_val(v), nn)[0])
+
+
+def sf_tupitem(ev, v, n, i):
+    from .values import tuple_parts
+    nn = z3.simplify(n.z).as_long()
+    ii = z3.simplify(i.z).as_long()
+    return VDyn(tuple_parts(to_val(v), nn)[1][ii])
+
+
+def sf_islist(ev, v):
+    return VBool(ev.eng.isinst(ev.st, v, 'list'))
+
+
+def sf_aslist(ev, v):
+    return VList(T.Val.lval(v.z)) if isinstance(v, VDyn) else v
+
+
+def sf_isinst_cls(ev, v, c):
+    f = z3.Function('isinst_cls', T.I, T.I, T.B)
+    if isinstance(v, VRef):
+        return VBool(f(v.z, c.z))
+    return VBool(z3.And(T.Val.is_VR(v.z), f(T.Val.rval(v.z), c.z)))
+
+
 SPECFUNCS = {k[3:]: v for k, v in list(globals().items()) if k.startswith('sf_')}
